@@ -211,13 +211,14 @@ def resultAck (c : Cfg) (s : MSt) (new : SState) (now : Int) : MSt × Nat :=
 def keepsComment (createdBefore : Int) (cm : Cmt) : Bool :=
   cm.persistent || decide (cm.entry > createdBefore)
 
-/-- checkable-check.cpp:311-323 (`send_notification`), with C01's transcription of state type and hard change. -/
+/-- checkable-check.cpp:316-330 (`send_notification`), with C01's transcription of state type and hard change; the
+    volatile branch carries the SOFT NOT-OK → HARD OK exclusion too (since the repair of F-C02b, commit 6126182). -/
 def sendNotification (c : Cfg) (b : St) (new : SState) : Bool :=
   let ta := nextTypeAttempt c b new
   let hc := hardChangeOf c b new ta.1
   let okOld := isOK c.kind b.state
   let okNew := isOK c.kind new
-  ((hc && !(b.stype == .soft && okNew)) || (c.volatile && ta.1 == .hard)) &&
+  ((hc && !(b.stype == .soft && okNew)) || (c.volatile && ta.1 == .hard && !(b.stype == .soft && okNew))) &&
     !(okOld && b.stype == .soft) && !(c.volatile && okOld && okNew)
 
 /-- One accepted `ProcessCheckResult`. -/
